@@ -23,6 +23,16 @@ def bounded_inputs(run, n, count, ordered=True):
         yield d
 
 
+def scaled_inputs(run, n, count):
+    """The same tables multiplied by a power of two (exact in floats, so the clean tree gives exactly the scaled
+    results); the tolerance floor follows the scale ("__unit__"), so an absolute threshold hidden in the code shows."""
+    for k, d in enumerate(bounded_inputs(run, n, count)):
+        s = 2.0 ** (-20, -30, -40, 20)[k % 4]
+        e = {key: v * s for key, v in d.items()}
+        e["__unit__"] = s
+        yield e
+
+
 def main(run):
     pkg = run.package()
     run.under_contract(pkg, "exploitability", ["MaxGainGame.__init__", "MaxGainGame.get_values", "MaxGainGame.get_value",
@@ -45,6 +55,9 @@ def main(run):
         cnt = (12 if n < 9 else 3) if run.tier == "quick" else (60 if n < 9 else 6)
         run.bounded_run(f"float[n={n}]", S.sc_exploitability, {"n": n}, bounded_inputs(run, n, cnt), tol=1e-9,
                         bound=f"{cnt} seeded bound tables (ordered, unordered, degenerate), relative tolerance 1e-9")
+        if n <= 7:
+            run.bounded_run(f"float.scaled[n={n}]", S.sc_exploitability, {"n": n}, scaled_inputs(run, n, 8), tol=1e-9,
+                            bound="8 seeded bound tables scaled by 2^-20, 2^-30, 2^-40, 2^20; tolerance 1e-9 relative to the scale")
         run.bounded_run(f"float.after_other_entry_points[n={n}]", S.sc_exploitability, {"n": n, "history": True},
                         bounded_inputs(run, n, max(2, cnt // 4)), tol=1e-9,
                         bound="the same after compute_shapley_value / compute_shapley_value_for_player / compute_exploitability "
